@@ -274,7 +274,9 @@ fn u0(ctx: &mut Ctx) {
     }
 }
 
-const U1_LABELS: [&str; 14] = ["a", "b", "ab", "ba", "aab", "_my", "_mysrv", "foo", "bar", "foobar", "office", "printer", "officeprinter", "local"];
+// labels that collide under concatenation, and labels that both start and end with another label ("aa" / "aba" for "a",
+// "foofoo" for "foo": a prefix walk over concatenated labels reaches them and a textual suffix test accepts them)
+const U1_LABELS: [&str; 17] = ["a", "b", "ab", "ba", "aab", "_my", "_mysrv", "foo", "bar", "foobar", "office", "printer", "officeprinter", "local", "aa", "aba", "foofoo"];
 
 fn u1_name(r: &mut Rng) -> NameM {
     let k = r.usize(1, 3);
@@ -650,6 +652,7 @@ fn live(ctx: &mut Ctx) {
         let loc = monitor::short_loc(&fp.location);
         ctx.violation("sound", &format!("service-thread-panic@{}", loc), format!("a responder thread panicked during the live family: {}", fp.message), json!({"family": "live", "idx": 0}));
     }
+    super::common::report_lock_discipline(ctx, "sound", "live");
     rt.shutdown_timeout(Duration::from_millis(200));
 }
 
